@@ -10,6 +10,31 @@ Notation E := (expr GS).
 Definition gq (a b : Qc) : G := (a, b).
 Definition gr (a : Qc) : G := (a, z0).
 
+(* real / imaginary part on Gaussian rationals, with the laws used by the
+   toreal/toimag theorems *)
+Lemma Qc_opp_self (q : Qc) : (- q = q)%Qc -> q = 0%Qc.
+Proof. intros H. assert (E2 : (q * (1 + 1) = 0)%Qc).
+  { replace (q * (1 + 1))%Qc with (q + q)%Qc by ring. rewrite <- H at 1. ring. }
+  destruct (Qcmult_integral _ _ E2) as [|K]; auto. discriminate K. Qed.
+Lemma G_isreal (a : GS) : isreal GS a -> snd a = 0%Qc.
+Proof. destruct a as [x y]. unfold isreal; simpl. unfold gconj; simpl. intros H. assert (K : (- y = y)%Qc) by congruence. apply Qc_opp_self; auto. Qed.
+Definition GRI : ReIm GS.
+Proof. refine {| re := fun a : GS => ((fst a, 0%Qc) : GS); im := fun a : GS => ((snd a, 0%Qc) : GS) |}.
+  - intros [x y]; unfold isreal; simpl; unfold gconj; simpl; f_equal; ring.
+  - intros [x y]; unfold isreal; simpl; unfold gconj; simpl; f_equal; ring.
+  - intros [x y] [u v]; simpl; unfold gadd; simpl; f_equal; ring.
+  - intros [x y] [u v]; simpl; unfold gadd; simpl; f_equal; ring.
+  - intros [x y] [u v] H; apply G_isreal in H; simpl in *; subst; unfold gmul; simpl; f_equal; ring.
+  - intros [x y] [u v] H; apply G_isreal in H; simpl in *; subst; unfold gmul; simpl; f_equal; ring.
+  - intros [x y] H; apply G_isreal in H; simpl in *; subst; reflexivity.
+  - intros [x y] H; apply G_isreal in H; simpl in *; subst; reflexivity.
+  - intros [x y]; simpl; reflexivity.
+  - intros [x y]; simpl; unfold gopp; simpl; f_equal; ring.
+Defined.
+
+Definition qeqb (a b : Qc) : bool := Qeq_bool (this a) (this b).
+Definition grealb (a : G) : bool := qeqb (snd a) 0%Qc.
+
 Fixpoint nodupb (l : list nat) : bool :=
   match l with [] => true | a :: l' => negb (existsb (Nat.eqb a) l') && nodupb l' end.
 Definition shape_eqb (p q : nat * nat) : bool := Nat.eqb (fst p) (fst q) && Nat.eqb (snd p) (snd q).
@@ -25,6 +50,21 @@ Fixpoint wfb (e : E) : bool :=
   | VStack es => negb (Nat.eqb (length es) 0) && forallb wfb es && forallb (fun e' => Nat.eqb (snd (shape GS e')) (snd (shape GS (VStack es)))) es
   | HStack es => negb (Nat.eqb (length es) 0) && forallb wfb es && forallb (fun e' => Nat.eqb (fst (shape GS e')) (fst (shape GS (HStack es)))) es
   | BlockDiag es => negb (Nat.eqb (length es) 0) && forallb wfb es
+  | Kron a b => wfb a && wfb b
+  | RealImag _ _ _ _ => false
+  end.
+
+(* boolean version of Expr.rwf (real-coefficient trees with toreal/toimag nodes) *)
+Fixpoint rwfb (e : E) : bool :=
+  match e with
+  | Leaf m n M => wfMb n m M && forallb (forallb grealb) M
+  | Add a b | Sub a b => rwfb a && rwfb b && shape_eqb (shape GS a) (shape GS b)
+  | Mul a b => rwfb a && rwfb b && Nat.eqb (snd (shape GS a)) (fst (shape GS b))
+  | Scale al a => grealb al && rwfb a
+  | Neg a | ConjE a | AdjW a | TranspW a => rwfb a
+  | Pow a _ => rwfb a && Nat.eqb (fst (shape GS a)) (snd (shape GS a))
+  | RealImag fw aj _ a => fw && aj && (wfb a || rwfb a)
+  | _ => false
   end.
 
 (* view: 0 = root, 1 = root.H, 2 = root.T, 3 = root.conj() *)
@@ -34,18 +74,24 @@ Definition view (v : nat) (e : E) : E :=
 Definition dird (d : nat) : dir := match d with 0%nat => Fwd | _ => Adj end.
 
 Record call := { c_view : nat; c_dir : nat; c_X : list (list G); c_Y : list (list G) }.
-Record caseE := { e_id : nat; e_e : E; e_calls : list call }.
+(* e_mode: 0 = C-linear tree (wf), 1 = toreal/toimag tree on real inputs (rwf),
+   2 = operational comparison only (toreal/toimag with arbitrary flags / complex inputs) *)
+Record caseE := { e_id : nat; e_mode : nat; e_e : E; e_calls : list call }.
 
 Definition dense_dir (d : dir) (e : E) : list (list G) :=
-  match d with Fwd => dense GS e | Adj => ctranspose GS (snd (shape GS e)) (dense GS e) end.
+  match d with Fwd => dense GS GRI e | Adj => ctranspose GS (snd (shape GS e)) (dense GS GRI e) end.
 
 (* codes: 1 = operational model [apmat] disagrees with the implementation,
    2 = dense specification disagrees, 3 = tree not well-formed *)
-Definition check_call (tol : Qc) (e : E) (c : call) : list nat :=
+Definition check_call (tol : Qc) (mode : nat) (e : E) (c : call) : list nat :=
   let e' := view (c_view c) e in
   let d := dird (c_dir c) in
-  (if gmclose tol (c_Y c) (apmat GS d e' (c_X c)) then [] else [1%nat]) ++
-  (if gmclose tol (c_Y c) (map (mv GR (dense_dir d e')) (c_X c)) then [] else [2%nat]).
+  (if gmclose tol (c_Y c) (apmat GS GRI d e' (c_X c)) then [] else [1%nat]) ++
+  (if Nat.eqb mode 2 then [] else
+   if gmclose tol (c_Y c) (map (mv GR (dense_dir d e')) (c_X c)) then [] else [2%nat]).
 Definition dedup (l : list nat) : list nat := nodup Nat.eq_dec l.
+Definition wf_mode (mode : nat) (e : E) : bool :=
+  match mode with 0%nat => wfb e | 1%nat => rwfb e | _ => true end.
 Definition checkE (tol : Qc) (c : caseE) : list nat :=
-  dedup ((if wfb (e_e c) then [] else [3%nat]) ++ flat_map (check_call tol (e_e c)) (e_calls c)).
+  dedup ((if wf_mode (e_mode c) (e_e c) then [] else [3%nat]) ++
+         flat_map (check_call tol (e_mode c) (e_e c)) (e_calls c)).
